@@ -119,9 +119,43 @@ def decider_state_scenario(h: Harness, rng):
             h.count("decider-state-scenarios")
 
 
+def persistent_handler_scenario(h: Harness, rng):
+    """refinement objects that live as long as the grammar (a WeightedStringHandler with its numpy probability matrix):
+    mapping the same genotype again, after other genotypes were mapped, must give the same program and leave the
+    handler's matrix as it was"""
+    import wsgrammar
+    g = wsgrammar.grammar()
+    before = wsgrammar.MATRIX.copy()
+    for name, mk in (("GE", lambda s: GE(g, synth.make_decider("grow", 4, s, g), gene_length=48)),
+                     ("SGE", lambda s: SGE(g, synth.make_decider("grow", 4, s, g), gene_length=48)),
+                     ("DynamicSGE", lambda s: DSGE(g, 4))):
+        shared = NativeRandomSource(rng.randrange(10**6))
+        rep = mk(shared)
+        genos = [rep.create_genotype(shared) for _ in range(h.n(6, 30))]
+        first = {}
+        for rnd in range(3):
+            for gi, geno in enumerate(genos):
+                st, p = safe(lambda: rep.genotype_to_phenotype(geno))
+                res = repr(p) if st == "ok" else f"error:{p}"
+                if rnd == 0:
+                    first[gi] = res
+                    h.seen(f"ws:{name}:{res}", nontrivial=st == "ok" and "Seq" in res)
+                elif res != first[gi]:
+                    h.fail(f"{name}.genotype_to_phenotype", "same-genotype-different-program",
+                           f"WeightedStringHandler grammar: genotype #{gi} mapped to {first[gi][:120]} first and to {res[:120]} in round {rnd + 1}",
+                           [name, gi, rnd])
+                    break
+        h.count("persistent-handler-scenarios")
+    if not (wsgrammar.MATRIX == before).all():
+        h.fail("WeightedStringHandler.generate", "refinement-object-modified",
+               f"the handler's probability matrix changed while mapping: {before.tolist()} -> {wsgrammar.MATRIX.tolist()}", ["matrix"])
+        wsgrammar.MATRIX[:] = before
+
+
 def run(h: Harness):
     rng = h.rng
     decider_state_scenario(h, rng)
+    persistent_handler_scenario(h, rng)
     for gi in range(h.n(40, 600)):
         refined = rng.random() < 0.5
         opts = {"ann": refined, "float": rng.random() < 0.3, "str": False}
